@@ -340,8 +340,8 @@ def correct_names(name, val):
     :param val: the variable name we are modifying
     :return: the new name to use
     """
-    # only names of the form _<Class>__<name> are mangled names; an ordinary attribute may well start with the class name
-    # (_Nodes or _Node_count of a class Node) and must keep its name
+    # only names of the form _<Class>__<name> are mangled names; an ordinary attribute may well start with the class
+    # name (_Nodes or _Node_count of a class Node) and must keep its name
     prefix = "_" + name.lstrip("_")
     if val.startswith(prefix + "__"):
         return val[len(prefix):]
